@@ -72,6 +72,13 @@ namespace rkcommon {
           }
         };
 
+        // a pool of one thread (the caller) has no worker that could ever pick
+        // the task up: run it synchronously, like the debug backend does
+        if (numThreadsTaskSystemInternal() == 1) {
+          fcn();
+          return;
+        }
+
         auto *task = new LocalTask(std::forward<TASK_T>(fcn));
         scheduleTaskInternal(task);
       }
